@@ -11,7 +11,7 @@ PROP = 'C15'
 RTOL = 1e-6
 RULE = ('cases = random expression trees (depth 1..3) over the differentiable operations {full, +, -, *, broadcasting *, @ (A@x, x@A, A@B), scalar +,-,*,/ from both sides, unary -, kron, '
         'sum (all / subset), dot (full / partial), norm, norm squared, bilinear_form, slicing (ints, slices, None), apply_mask, cat, pad, diag (both directions), mprod, t()} on small '
-        'operands (order 1..4, sizes<=3, ranks<=3), with a seeded choice of which operands / which cores are tracked; gradients obtained through grad.grad, grad.grad_list and '
+        'operands (order 1..4, sizes<=3, ranks<=3; harness-made core lists, and in a third of the cases objects produced by the library itself: ones, zeros+c, randn, TT-SVD, clone, detach, round, slicing, rank1TT, eye, t()), with a seeded choice of which operands / which cores are tracked; gradients obtained through grad.grad, grad.grad_list (flat and all_in_one=False) and '
         'torch.autograd.grad. Reference = autograd derivative of the SAME expression evaluated on dense arrays contracted by the harness from leaf copies of the cores, cross-checked '
         'against a central finite difference of a random directional derivative (the two references must agree before a discrepancy is blamed on the library). Oracle: gradient not None for '
         'every tracked core that influences the value, shape of the core, relative error <= 1e-6; tracked cores still require grad and were not written in place. '
